@@ -41,6 +41,8 @@ func C12(c *Ctx, r *report.Run) error {
 	}
 	nMisuse := len(jobs)
 	valid := buildUniverse(c)
+	rs, _ := univ.RuleSpecs(c.Thorough)
+	valid = append(valid, rs...)
 	for _, s := range valid {
 		if !hasTag(s, "valid") {
 			continue
